@@ -32,6 +32,18 @@ func (self *Compiler) popScope() {
 	self.currScope = &self.varScopes[len(self.varScopes)-1]
 }
 
+// Makes `name` the current module: from now on, global identifiers are resolved in that module's global scope.
+func (self *Compiler) enterModule(name string) {
+	self.currModule = name
+
+	if _, exists := self.globalScopes[name]; !exists {
+		self.globalScopes[name] = make(map[string]string)
+	}
+
+	self.varScopes[0] = self.globalScopes[name]
+	self.currScope = &self.varScopes[len(self.varScopes)-1]
+}
+
 func (self *Compiler) mangleFn(input string) string {
 	mangled := fmt.Sprintf("@%s_%s", self.currModule, input)
 	return mangled
@@ -79,8 +91,13 @@ func (self *Compiler) mangleLabel(input string) string {
 }
 
 func (self Compiler) getMangledFn(input string) (string, bool) {
-	for key, fn := range self.modules[self.currModule] {
-		if key == input {
+	if fn, found := self.modules[self.currModule][input]; found {
+		return fn.MangledName, true
+	}
+
+	// A function imported from another Homescript module is the one of that module.
+	if from, imported := self.fnImports[self.currModule][input]; imported {
+		if fn, found := self.modules[from][input]; found {
 			return fn.MangledName, true
 		}
 	}
